@@ -17,7 +17,6 @@ package redis
 import (
 	"fmt"
 	"net"
-	"strings"
 	"sync"
 	"time"
 
@@ -106,7 +105,7 @@ func (p *redisProc) addHandler(scope *stats.Scope, cmd string, fn commandHandleF
 }
 
 func (p *redisProc) findHandler(cmd string) (*commandHandler, bool) {
-	hdlr, ok := p.cmdHdlrs[strings.ToLower(cmd)]
+	hdlr, ok := p.cmdHdlrs[lowerASCII([]byte(cmd))]
 	return hdlr, ok
 }
 
